@@ -281,6 +281,13 @@ def build_scenarios(prop, tier, rnd):
         for wi, ops in enumerate(WITNESS):
             for ni, n in enumerate(NS + [4]):
                 add(ops, {"kt": KTS[(wi + ni) % len(KTS)], "n": n, "sync": (wi + ni) % 2 == 0}, {"mode": "plain"}, chunk=[6, 0, 3, 2, 5][ni] + wi)
+        # environment "short writes": every write(2) on a file of the store accepts only half of what it is offered (legal kernel
+        # behaviour that no test machine shows). The model has no such step: nothing observable may differ. Witnesses (staged
+        # contents up to 1.2 MB, log records, snapshots, settings) and long keys (records of 9 KB and more).
+        for wi, ops in enumerate(WITNESS):
+            add(ops, {"kt": KTS[wi % len(KTS)], "n": (NS + [4])[wi % 5], "sync": wi % 2 == 1}, {"mode": "plain", "short_writes": True}, chunk=wi + 1)
+        for i, ops in enumerate(long_[: (4 if q else 40)]):
+            add(ops, dict(variants(i + 1), kt=["string_big", "bytes_big"][i % 2]), {"mode": "plain", "short_writes": True}, chunk=i + 2)
         # one store with the pre-created directory tree (commit skips mkdir there): reclaim a content, store it again
         add(WITNESS[9], {"kt": "string", "n": 3, "sync": True, "pre": True}, {"mode": "plain"}, chunk=1)
         if prop == "C13":
@@ -345,6 +352,17 @@ def build_scenarios(prop, tier, rnd):
                         {"op": "put", "k": 1, "c": "B"}, {"op": "del", "k": 2}]
                 add(pre + tail, {"kt": ["string", "u32"][j % 2], "n": n, "sync": True},
                     {"mode": "crash", "nested": False, "cont": True, "from": max(1, len(pre) - 2)}, chunk=j)
+        if mode == "crash":
+            # a second session that works NEXT TO the leftovers of a killed one (no clean-up first): staging files of the dead
+            # session (up to 1.2 MB streamed) must not leak into what the new session commits or abandons
+            left = [[{"op": "put", "k": 1, "c": "G"}, {"op": "put", "k": 2, "c": "H"}], [{"op": "abort", "k": 1, "c": "G"}, {"op": "put", "k": 1, "c": "M"}],
+                    [{"op": "put", "k": 3, "c": "C"}, {"op": "put", "k": 3, "c": "G"}, {"op": "abort", "k": 2, "c": "H"}]]
+            nocl = [{"op": "put", "k": 1, "c": "B"}, {"op": "put", "k": 2, "c": "A"}, {"op": "put", "k": 3, "c": "E"}, {"op": "abort", "k": 4, "c": "C"},
+                    {"op": "put", "k": 4, "c": "C"}, {"op": "reopen"}, {"op": "put", "k": 1, "c": "A"}]
+            for j, ops in enumerate(left[:2] if q else left):
+                for ch in ((0, 3) if q else (0, 3, 5, 6)):
+                    add(ops, {"kt": KTS[(j + ch) % len(KTS)], "n": [10000, 2][j % 2], "sync": True},
+                        {"mode": "crash", "nested": False, "cont": True, "cont_ops": nocl}, chunk=ch)
         if prop == "C03":
             # first-time initialisation with the pre-created directory tree (65 792 mkdirs): images at a sparse selection of
             # its boundaries; every recovered store must be fully usable for contents in any cas/ sub-directory
@@ -385,6 +403,12 @@ def build_scenarios(prop, tier, rnd):
                 rd.append(w2)
             for i, ops in enumerate(rd):
                 add(ops, {"kt": KTS[i % len(KTS)], "n": [2, 1, 10000][i % 3], "sync": i % 2 == 0}, {"mode": "plain"}, chunk=i)
+            # environment "short writes" (every write(2) accepts half of what it is offered): whatever appears under cas/ still holds
+            # the complete bytes its name promises, for every content class under every chunking
+            sw = [{"op": "put", "k": 1, "c": "G"}, {"op": "put", "k": 2, "c": "C"}, {"op": "put", "k": 3, "c": "H"}, {"op": "put", "k": 4, "c": "M"},
+                  {"op": "put", "k": 1, "c": "A"}, {"op": "reopen"}, {"op": "put", "k": 2, "c": "G"}, {"op": "put", "k": 3, "c": "B"}]
+            for ch in range(4 if q else 8):
+                add(sw, {"kt": KTS[ch % len(KTS)], "n": [2, 10000, 1][ch % 3], "sync": ch % 2 == 0}, {"mode": "plain", "short_writes": True}, chunk=ch)
         if prop in ("C03", "C20"):
             # large multi-key / large-key records (two write calls per record)
             for i, ops in enumerate(walks[: (4 if q else 60)]):
@@ -487,7 +511,9 @@ def build_scenarios(prop, tier, rnd):
         for pre in (True, False):
             add(WITNESS[2], {"kt": "string", "n": 2, "sync": True, "pre": pre},
                 {"mode": "gate", "trials": [{"n2": 2, "ver": 4, "pre2": not pre,
-                                             "ops": [{"op": "put", "k": 4, "c": "C"}, {"op": "put", "k": 3, "c": "B"}, {"op": "del", "k": 4}]},
+                                             # ... and contents that were reclaimed earlier are stored again (their cas/ sub-directories)
+                                             "ops": [{"op": "put", "k": 4, "c": "C"}, {"op": "put", "k": 3, "c": "B"}, {"op": "del", "k": 4},
+                                                     {"op": "put", "k": 1, "c": "A"}, {"op": "put", "k": 4, "c": "C"}, {"op": "del", "k": 1}, {"op": "put", "k": 2, "c": "A"}]},
                                             {"n2": 3, "ver": 4, "pre2": pre}]})
     return sc
 
@@ -560,6 +586,7 @@ def run_seq_check(prop, tier, replay=None):
     bad_sids = set()
     knowns = {}
     beyond = {}
+    foreign = {}
     for f in fails:
         # observations beyond the listed properties (DESIGN.md 9): notes, never verdicts
         for t in f["tags"]:
@@ -568,10 +595,14 @@ def run_seq_check(prop, tier, replay=None):
         f["tags"] = [t for t in f["tags"] if not t.startswith("BEYOND:")]
         if not f["tags"]:
             continue
-        mine = [t for t in f["tags"] if any(t.startswith(p) for p in prefixes)]
+        # a conjunct of this property evaluated in the continuation of a crash image carries the prefix "C03:cont-"
+        mine = [t for t in f["tags"] if any(t.startswith(p) or t.startswith("C03:cont-" + p) for p in prefixes)]
         if any(t.startswith("DRIFT") for t in f["tags"]):
             drift += 1
         bad_sids.add(f["sid"])
+        for t in f["tags"]:
+            if t not in mine:
+                foreign[t] = foreign.get(t, 0) + 1
         if not mine:
             continue
         line = trace_line(f["trace"], f["line"])
@@ -585,6 +616,8 @@ def run_seq_check(prop, tier, replay=None):
                 knowns.setdefault(k["id"], (k, f, t))
             else:
                 viol.setdefault(f["sid"], (s, f, t))
+    if foreign:
+        log(f"[{prop}] tags of other properties on the recorded lines (decided by their own checks): {foreign}")
     for t in mc["violated"]:
         # a violated model invariant is reported only through its reproduction on the code (mode B / A above);
         # here it is recorded in the evidence
